@@ -131,6 +131,10 @@ void h_num_accept(void)
 }
 
 #ifdef IORA_SEARCH
+#undef POS
+#undef N
+#undef TXT
+#undef RET
 /* SEARCH (bounded, plain; only used to obtain a concrete input for REPLAY): a 12-byte text, any start offset; the same clauses,
  * with the RFC 8259 number grammar as a reference scanner (loops are fine here: the harness is unwound). */
 static long ref_number_end(const uint8_t *t, size_t n, size_t p)
@@ -146,33 +150,33 @@ static long ref_number_end(const uint8_t *t, size_t n, size_t p)
 static bool ref_delim(const uint8_t *t, size_t n, size_t p) { return p == n || t[p] == ' ' || t[p] == '\t' || t[p] == '\n' || t[p] == '\r' || t[p] == ',' || t[p] == ']' || t[p] == '}'; }
 void h_search(void)
 {
-  uint8_t IN[12]; size_t IN_N = nondet_size_t(); size_t POS = nondet_size_t(); int which = nondet_int();
+  uint8_t IN[12]; size_t IN_N = nondet_size_t(); size_t START = nondet_size_t(); int which = nondet_int();
   IORA_NONDET_BYTES(IN, 12);
-  __CPROVER_assume(IN_N <= 12 && POS <= IN_N);
+  __CPROVER_assume(IN_N <= 12 && START <= IN_N);
   IORA_TRUE = 1; GN_on = 0;
-  JsonParser ps = { { (const char *)IN, IN_N }, POS, { 10000, 10000, 100, 1000000 }, NULL };
+  JsonParser ps = { { (const char *)IN, IN_N }, START, { 10000, 10000, 100, 1000000 }, NULL };
   Json o = Json_DEFAULT;
   if (which == 0) {
     JsonParser_skipWhitespace(&ps);
-    __CPROVER_assert(POS <= ps._pos && ps._pos <= IN_N, "W1");
+    __CPROVER_assert(START <= ps._pos && ps._pos <= IN_N, "W1");
     __CPROVER_assert(ps._pos == IN_N || !(IN[ps._pos] == 32 || IN[ps._pos] == 9 || IN[ps._pos] == 10 || IN[ps._pos] == 13), "W2");
   } else if (which == 1) {
     bool ok = JsonParser_parseNull(&ps, &o);
-    bool lit = IN_N - POS >= 4 && IN[POS] == 'n' && IN[POS + 1] == 'u' && IN[POS + 2] == 'l' && IN[POS + 3] == 'l';
-    __CPROVER_assert(ok == lit, "L1"); __CPROVER_assert(ps._pos == POS + (ok ? 4 : 0), "L2/L3"); __CPROVER_assert(ps._pos <= IN_N, "L4");
+    bool lit = IN_N - START >= 4 && IN[START] == 'n' && IN[START + 1] == 'u' && IN[START + 2] == 'l' && IN[START + 3] == 'l';
+    __CPROVER_assert(ok == lit, "L1"); __CPROVER_assert(ps._pos == START + (ok ? 4 : 0), "L2/L3"); __CPROVER_assert(ps._pos <= IN_N, "L4");
   } else if (which == 2) {
     bool ok = JsonParser_parseBool(&ps, &o);
-    bool lt = IN_N - POS >= 4 && IN[POS] == 't' && IN[POS + 1] == 'r' && IN[POS + 2] == 'u' && IN[POS + 3] == 'e';
-    bool lf = IN_N - POS >= 5 && IN[POS] == 'f' && IN[POS + 1] == 'a' && IN[POS + 2] == 'l' && IN[POS + 3] == 's' && IN[POS + 4] == 'e';
-    __CPROVER_assert(ok == (lt || lf), "B1"); __CPROVER_assert(ps._pos == POS + (lt ? 4 : lf ? 5 : 0), "B2/B3/B4"); __CPROVER_assert(ps._pos <= IN_N, "B5");
+    bool lt = IN_N - START >= 4 && IN[START] == 't' && IN[START + 1] == 'r' && IN[START + 2] == 'u' && IN[START + 3] == 'e';
+    bool lf = IN_N - START >= 5 && IN[START] == 'f' && IN[START + 1] == 'a' && IN[START + 2] == 'l' && IN[START + 3] == 's' && IN[START + 4] == 'e';
+    __CPROVER_assert(ok == (lt || lf), "B1"); __CPROVER_assert(ps._pos == START + (lt ? 4 : lf ? 5 : 0), "B2/B3/B4"); __CPROVER_assert(ps._pos <= IN_N, "B5");
     __CPROVER_assert(!ok || o.b == lt, "B2/B3 value");
   } else {
-    __CPROVER_assume(POS < IN_N);
-    GJ_num_start = POS; GJ_conv_calls = 0;
+    __CPROVER_assume(START < IN_N);
+    GJ_num_start = START; GJ_conv_calls = 0;
     bool ok = JsonParser_parseNumber(&ps, &o);
-    long e = ref_number_end(IN, IN_N, POS);
-    __CPROVER_assert(POS <= ps._pos && ps._pos <= IN_N, "N1");
-    __CPROVER_assert(!ok || ps._pos > POS, "N2");
+    long e = ref_number_end(IN, IN_N, START);
+    __CPROVER_assert(START <= ps._pos && ps._pos <= IN_N, "N1");
+    __CPROVER_assert(!ok || ps._pos > START, "N2");
     if (e >= 0 && ref_delim(IN, IN_N, (size_t)e)) { __CPROVER_assert(ok, "A1"); __CPROVER_assert(ps._pos == (size_t)e, "A2"); }
   }
 }
